@@ -156,17 +156,26 @@ def run_case(ck, desc):
     elif desc.get("p_i_at") == "row":
         p_i = float(P_tab[int(np.searchsorted(P_tab, p_i))])
         ck.count("cases_initial_pressure_on_a_table_row")
+    # (the three entries are found BY NAME: a caller adds them in whatever order - the library's own plotting test
+    #  writes M, tau, p_initial)
+    import itertools as _it
+
     truth = Parameters()
-    truth.add("tau", value=tau)
-    truth.add("M", value=M)
-    truth.add("p_initial", value=p_i)
+    order_ = list(_it.permutations(("tau", "M", "p_initial")))[desc["seed"] % 6]
+    for nm_ in order_:
+        truth.add(nm_, value={"tau": tau, "M": M, "p_initial": p_i}[nm_])
+    ck.count("parameters_added_in_order." + ",".join(order_))
     # learn the node count the objective really uses (a probe evaluation), so that the data are
     # generated at the library's own resolution whatever it is
     OBJ.clear()
     NODES.clear()
-    with warnings.catch_warnings(), np.errstate(all="ignore"):
-        warnings.simplefilter("ignore")
-        fpm._obj_function(truth, days, np.zeros(n), pvt, pf)
+    try:
+        with warnings.catch_warnings(), np.errstate(all="ignore"):
+            warnings.simplefilter("ignore")
+            fpm._obj_function(truth, days, np.zeros(n), pvt, pf)
+    except Exception as e:  # noqa: BLE001
+        ck.violation("objective-uses-forward-model", {"at": "the generating parameters", "parameters_added_in_order": list(order_), "raised": repr(e)[:200]}, desc)
+        return True, None
     nodes = NODES[-1] if NODES else 80
     rf_true = _forward(pvt, p_i, tau, days, pf, nodes)
     cum = M * rf_true
@@ -334,7 +343,10 @@ def run_case(ck, desc):
     # volumetric M, an analogue's tau) while the first-guess argument says something else: the objective
     # is still the forward model at the parameters of each evaluation, and the held one stays put
     held = ("p_initial", "M", "tau")[desc["seed"] % 3]
-    P3 = result.params.copy()
+    P3 = Parameters()
+    for nm_ in list(_it.permutations(("tau", "M", "p_initial")))[(desc["seed"] // 6 + 1) % 6]:
+        src_ = result.params[nm_]
+        P3.add(nm_, value=src_.value, min=src_.min, max=src_.max, vary=src_.vary)
     held_value = {"p_initial": min(desc["imax"], max(hi_p, 0.97 * p_i)), "M": float(P3["M"].value), "tau": float(P3["tau"].value)}[held]
     P3[held].set(value=held_value, vary=False)
     guess3 = min(desc["imax"], max(hi_p * 1.02, 1.3 * held_value if held == "p_initial" else guess))
